@@ -302,7 +302,7 @@ def gen_bfs(tier):
                             if tier == "quick":
                                 depth = 3 if (full and crs in ("EPSG:32633", None)) else 2 if crs in ("EPSG:32633", None) or full else 1
                             else:
-                                depth = 4 if full else 3
+                                depth = 5 if full else 4
                             yield (kind, shape, crs, layout, backend, depth)
 
     return g
@@ -473,7 +473,7 @@ def main(ctx):
         "in every new state; reproject: complete product. non-trivial = every case"
     )
     ctx.bounds = dict(kinds=KINDS, shapes=SHAPES, crs=CRSS, layouts=LAYOUTS, backends=BACKENDS,
-                      depth="quick: 1-3 by sub-product; thorough: 3-4", operations=list(SLICES) + ["isel time/band", "+1", "*2.0", "astype", "copy", "pickle", "compute"])
+                      depth="quick: 1-3 by sub-product; thorough: 4-5", operations=list(SLICES) + ["isel time/band", "+1", "*2.0", "astype", "copy", "pickle", "compute"])
     ctx.assumptions = [
         "locations are compared at pixel centres (for a single remaining pixel after striding the pixel size is not determinable)",
         "without a CRS, arrays with a single row or column are outside the property's domain",
